@@ -77,15 +77,30 @@ fn next(s: &mut u64) -> u64 {
 fn c41(out: &str) {
     const N: usize = 24;
     let mut all = String::new();
+    let mut failures = String::new();
     let mut st = 0x4134_1u64;
     for i in 0..N {
         let len = 6 + (next(&mut st) % 50) as usize;
         let tape: Vec<u8> = (0..len).map(|_| (next(&mut st) % 256) as u8).collect();
-        let (flow, p1, p2, _built) = hv_net_flows::c41::make(&tape, false);
-        let code = flow.with_process(&p1, "p1").with_process(&p2, "p2").generate_embedded("hv_net_flows");
-        write(out, &format!("c41_{i}"), code);
-        all.push_str(&format!("pub mod f{i} {{\n    include!(concat!(env!(\"OUT_DIR\"), \"/c41_{i}.rs\"));\n}}\n"));
+        let hex: String = tape.iter().map(|b| format!("{b:02x}")).collect();
+        // a program the production builder cannot compile must not break the harness build: it is
+        // reported (with its tape) by `hv_net c41` as a failing input
+        let res = std::panic::catch_unwind(|| {
+            let (flow, p1, p2, _built) = hv_net_flows::c41::make(&tape, false);
+            flow.with_process(&p1, "p1").with_process(&p2, "p2").generate_embedded("hv_net_flows")
+        });
+        match res {
+            Ok(code) => {
+                write(out, &format!("c41_{i}"), code);
+                all.push_str(&format!("pub mod f{i} {{\n    include!(concat!(env!(\"OUT_DIR\"), \"/c41_{i}.rs\"));\n}}\n"));
+            }
+            Err(e) => {
+                let msg = e.downcast_ref::<String>().cloned().or_else(|| e.downcast_ref::<&str>().map(|s| s.to_string())).unwrap_or_default();
+                failures.push_str(&format!("({hex:?}, {:?}), ", msg.chars().take(300).collect::<String>()));
+            }
+        }
     }
+    all.push_str(&format!("pub const BUILD_FAILURES: &[(&str, &str)] = &[{failures}];\n"));
     all.push_str(&format!("pub const SAMPLE: usize = {N};\n"));
     std::fs::write(format!("{out}/c41_all.rs"), all).unwrap();
 }
